@@ -10,6 +10,9 @@ import (
 
 // protoOf normalises the protocol named in "param X follows P" / "yields P".
 func (w *World) protoOf(name string) string {
+	if strings.HasPrefix(name, "yield.") {
+		return name
+	}
 	if _, ok := w.CS.ByKey["stream."+name]; ok {
 		return "stream." + name
 	}
@@ -105,6 +108,7 @@ func (x *Exec) streamCall(call *ast.CallExpr, fv *Val, st *St, fr *Frame, k kval
 					names[sc.Params[i]] = x.coerce(st, a, sig.Params().At(i).Type())
 				}
 			}
+			bindSubjects(sc, x.prodSubj, names)
 			env := &CEnv{X: x, Names: names, St: st, Pkg: x.Fn.Pkg}
 			x.wrapCfail("stream "+name, func() {
 				for _, r := range sc.Requires {
@@ -113,6 +117,7 @@ func (x *Exec) streamCall(call *ast.CallExpr, fv *Val, st *St, fr *Frame, k kval
 				}
 			})
 			x.assertWF(st, "yield#"+name, pos)
+			x.applyRecords(st, sc, env, call.Pos(), true)
 			var targets []modTarget
 			x.wrapCfail("modifies of stream "+name, func() { targets = x.modTargets(sc, env) })
 			x.havocAlloc(st)
@@ -122,7 +127,16 @@ func (x *Exec) streamCall(call *ast.CallExpr, fv *Val, st *St, fr *Frame, k kval
 			x.assumeWF(st)
 			st.yielded = true
 			st.note("yield to the consumer of stream %s at %s", name, pos)
-			k(st, x.freshVal(st, "yield.ret", types.Typ[types.Bool]))
+			ret := x.freshVal(st, "yield.ret", types.Typ[types.Bool])
+			if sc.Stops != "" {
+				x.wrapCfail("stops of stream "+name, func() {
+					x.recordVars(sc)
+					g := x.W.GhostVars[sc.Stops]
+					x.checkWrite(st, g.Key, Null, call.Pos())
+					st.heap[g.Key] = Not(ret.T)
+				})
+			}
+			k(st, ret)
 		})
 	case "next":
 		x.assertWF(st, "next#"+name, pos)
@@ -137,6 +151,12 @@ func (x *Exec) streamCall(call *ast.CallExpr, fv *Val, st *St, fr *Frame, k kval
 		for _, t := range targets {
 			x.havocTarget(st, t, call.Pos())
 		}
+		// the recorded ghost variables are written by the producer, but only as the records clauses say
+		x.wrapCfail("records of stream "+name, func() {
+			for _, g := range x.recordVars(sc) {
+				x.checkWrite(st, g.Key, Null, call.Pos())
+			}
+		})
 		// results: the yielded values and ok
 		var rvals []*Val
 		names := map[string]*Val{}
@@ -155,12 +175,34 @@ func (x *Exec) streamCall(call *ast.CallExpr, fv *Val, st *St, fr *Frame, k kval
 		x.assumeWF(st)
 		if len(rvals) > 0 {
 			ok := rvals[len(rvals)-1]
+			bindSubjects(sc, fv.Subj, names)
 			penv := &CEnv{X: x, Names: names, St: st, Pkg: x.Fn.Pkg}
 			x.wrapCfail("stream "+name, func() {
 				for _, r := range sc.Requires {
 					x.assume(st, Implies(ok.T, penv.HypFormula(r.Expr)))
 				}
 			})
+			if len(sc.Records) > 0 {
+				// two continuations: a value arrived (the records clauses were applied), or the producer finished
+				// (nothing recorded; its finish condition holds: recording streams check it at every producer exit)
+				fin := st.clone()
+				x.assume(fin, Not(ok.T))
+				if !fin.dead {
+					fenv := &CEnv{X: x, Names: names, St: fin, Pkg: x.Fn.Pkg}
+					x.wrapCfail("finish condition of stream "+name, func() {
+						for _, e := range sc.Ensures {
+							x.assume(fin, fenv.HypFormula(e.Expr))
+						}
+					})
+					fin.note("the producer of stream %s has finished (next at %s)", name, pos)
+					k(fin, &Val{Tuple: rvals})
+				}
+				x.assume(st, ok.T)
+				if st.dead {
+					return
+				}
+				x.applyRecords(st, sc, penv, call.Pos(), false)
+			}
 		}
 		st.note("resume the producer of stream %s at %s", name, pos)
 		k(st, &Val{Tuple: rvals})
@@ -179,8 +221,11 @@ func (x *Exec) pull2(call *ast.CallExpr, args []*Val, st *St, fr *Frame, k kval)
 	if !ok || tup.Len() != 2 {
 		oos("unexpected type of iter.Pull2 at %s", x.W.pos(call.Pos()))
 	}
+	if sc := x.W.CS.ByKey["stream."+name]; sc != nil {
+		x.resetRecords(st, sc, true, call.Pos())
+	}
 	k(st, &Val{Tuple: []*Val{
-		{T: x.fresh("next", SRef), Ty: tup.At(0).Type(), Proto: "next." + name},
+		{T: x.fresh("next", SRef), Ty: tup.At(0).Type(), Proto: "next." + name, Subj: args[0].Subj},
 		{T: x.fresh("stop", SRef), Ty: tup.At(1).Type(), Proto: "stop."},
 	}})
 }
@@ -197,10 +242,20 @@ func (x *Exec) rangeStream(n *ast.RangeStmt, rv *Val, st *St, fr *Frame, k func(
 	c, key := x.loopContract(fr, n)
 	label := fr.label
 	define := n.Tok == token.DEFINE
+	recording := len(sc.Records) > 0
+	if recording || sc.Stops != "" {
+		st = st.clone()
+		x.resetRecords(st, sc, true, n.Pos())
+	}
 	x.checkInvariants(st, fr, c, key, "init", nil, n.Pos())
 	x.assertWF(st, "loop#"+key, x.W.pos(n.Pos()))
 	sig, _ := rv.Ty.Underlying().(*types.Signature)
 	resume := func(s *St) {
+		x.wrapCfail("records of stream "+name, func() {
+			for _, g := range x.recordVars(sc) {
+				x.checkWrite(s, g.Key, Null, n.Pos())
+			}
+		})
 		env := &CEnv{X: x, Names: map[string]*Val{}, St: s, Pkg: x.Fn.Pkg}
 		var targets []modTarget
 		x.wrapCfail("resumes of stream "+name, func() {
@@ -227,6 +282,7 @@ func (x *Exec) rangeStream(n *ast.RangeStmt, rv *Val, st *St, fr *Frame, k func(
 				}
 			}
 		}
+		bindSubjects(sc, rv.Subj, names)
 		penv := &CEnv{X: x, Names: names, St: body, Pkg: x.Fn.Pkg}
 		x.wrapCfail("stream "+name, func() {
 			for _, r := range sc.Requires {
@@ -236,6 +292,7 @@ func (x *Exec) rangeStream(n *ast.RangeStmt, rv *Val, st *St, fr *Frame, k func(
 		if body.dead {
 			return
 		}
+		x.applyRecords(body, sc, penv, n.Pos(), false)
 		if n.Key != nil && len(vals) > 0 {
 			x.assignTo(n.Key, vals[0], body, fr, define)
 		}
@@ -258,12 +315,17 @@ func (x *Exec) rangeStream(n *ast.RangeStmt, rv *Val, st *St, fr *Frame, k func(
 	x.assumeWF(first)
 	fin := first.clone()
 	oldEnv := &CEnv{X: x, Names: x.localNames(st, fr, nil), St: st, Pkg: x.Fn.Pkg}
-	fenv := &CEnv{X: x, Names: x.localNames(fin, fr, nil), St: fin, Pkg: x.Fn.Pkg, Old: oldEnv}
-	x.wrapCfail("finish condition of stream "+name, func() {
-		for _, e := range sc.Ensures {
-			x.assume(fin, fenv.HypFormula(e.Expr))
-		}
-	})
+	finish := func(fin *St) {
+		fn := x.localNames(fin, fr, nil)
+		bindSubjects(sc, rv.Subj, fn)
+		fenv := &CEnv{X: x, Names: fn, St: fin, Pkg: x.Fn.Pkg, Old: oldEnv}
+		x.wrapCfail("finish condition of stream "+name, func() {
+			for _, e := range sc.Ensures {
+				x.assume(fin, fenv.HypFormula(e.Expr))
+			}
+		})
+	}
+	finish(fin)
 	if !fin.dead {
 		fin.note("range over stream %s: producer finished without yielding", name)
 		k(fin)
@@ -273,16 +335,116 @@ func (x *Exec) rangeStream(n *ast.RangeStmt, rv *Val, st *St, fr *Frame, k func(
 	if !reached {
 		return
 	}
+	// (the invariants describe the state at the end of an iteration, before the producer is resumed)
 	hv := st.clone()
 	x.loopHavoc(hv, fr, []ast.Node{n.Body}, key)
-	resume(hv)
 	x.assumeInvariants(hv, fr, c, key, nil)
+	x.assumeWF(hv)
+	resume(hv)
 	x.assumeWF(hv)
 	if hv.dead {
 		return
 	}
 	ex := hv.clone()
-	ex.note("range over stream %s: producer finished after some values", name)
-	k(ex)
+	if recording {
+		// recording streams check their finish condition at every producer exit
+		finish(ex)
+	}
+	if !ex.dead {
+		ex.note("range over stream %s: producer finished after some values", name)
+		k(ex)
+	}
 	arrive(hv, endIter)
+}
+
+// bindSubjects makes the subject names of a stream visible in a clause environment.
+func bindSubjects(sc *Contract, subj []*Val, names map[string]*Val) {
+	for i, s := range sc.Subjects {
+		if i < len(subj) && subj[i] != nil {
+			names[s] = subj[i]
+		}
+	}
+}
+
+// recordInit is the value a recorded ghost variable has when a producer starts.
+func recordInit(s Sort) *Term {
+	switch {
+	case s == SBool:
+		return False
+	case s == SInt:
+		return IntLit(0)
+	case s == SRef:
+		return Null
+	}
+	if s == SStr || s == SSeqRef || s == SSeqStr {
+		return SeqEmpty(s)
+	}
+	return nil
+}
+
+func (x *Exec) recordVars(sc *Contract) []*FieldInfo {
+	var out []*FieldInfo
+	for _, r := range sc.Records {
+		g, ok := x.W.GhostVars[r.Var]
+		if !ok {
+			cfail("records: unknown ghost variable %s", r.Var)
+		}
+		out = append(out, g)
+	}
+	if sc.Stops != "" {
+		g, ok := x.W.GhostVars[sc.Stops]
+		if !ok || g.Sort != SBool {
+			cfail("stops: unknown ghost Bool %s", sc.Stops)
+		}
+		out = append(out, g)
+	}
+	return out
+}
+
+// resetRecords: a producer of stream sc starts: its recorded ghost variables take their initial values.
+// write=true is the consumer side (iter.Pull2 / range start: a ghost assignment, checked against the frame);
+// write=false is the producer side (closure entry: an assumption).
+func (x *Exec) resetRecords(st *St, sc *Contract, write bool, p token.Pos) {
+	x.wrapCfail("records of stream "+sc.Key, func() {
+		for _, g := range x.recordVars(sc) {
+			init := recordInit(g.Sort)
+			if init == nil {
+				cfail("records: ghost variable %s has no initial value", g.Key)
+			}
+			if write {
+				x.checkWrite(st, g.Key, Null, p)
+				st.heap[g.Key] = init
+			} else {
+				x.assume(st, Eq(st.field(g), init))
+			}
+		}
+	})
+}
+
+// applyRecords performs "records G := e" for every clause (right-hand sides first), in the environment env.
+func (x *Exec) applyRecords(st *St, sc *Contract, env *CEnv, p token.Pos, check bool) {
+	if len(sc.Records) == 0 {
+		return
+	}
+	x.wrapCfail("records of stream "+sc.Key, func() {
+		vals := make([]*Term, len(sc.Records))
+		for i, r := range sc.Records {
+			vals[i] = env.tr(r.Expr).T
+		}
+		for i, r := range sc.Records {
+			g := x.W.GhostVars[r.Var]
+			if g == nil {
+				cfail("records: unknown ghost variable %s", r.Var)
+			}
+			if vals[i] == nil || vals[i].Sort != g.Sort {
+				cfail("records %s: value has the wrong sort", r.Var)
+			}
+			if check {
+				x.checkWrite(st, g.Key, Null, p)
+			}
+			nw := x.fresh(g.Key, g.Sort)
+			x.assume(st, Eq(nw, vals[i]))
+			st.heap[g.Key] = nw
+		}
+	})
 }
